@@ -767,10 +767,13 @@ func checkC03(c *Ctx) {
 
 	lockOrder(c)
 	lockPairing(c, nil)
-	proxy := p.Fn("internal/loadbalancer", "LoadBalancer", "proxyRequest")
+	proxy := c.proxyFn()
 	c.traceRuleSplit("gauge-paired", "loadbalancer.(*LoadBalancer).proxyRequest", proxy, c.lbSpec(),
 		"IncrementConnections is matched by DecrementConnections on this exit",
 		func(t *Trace) (string, string) {
+			if !t.Has("proxy") && !t.Has("panic-in:(*net/http/httputil.ReverseProxy).ServeHTTP") && t.Count("inc") == 0 && t.Count("dec") == 0 {
+				return "not-proxied", ""
+			}
 			cx := "normal-exit"
 			if t.Exit == ExitPanic {
 				cx = "panic-exit"
